@@ -175,6 +175,7 @@ class CRoutine:
         self.trigger_table = None
         self.timing = None
         self.cursors = {}
+        self.cursor_asts = {}     # cursor name -> its SELECT (ast), for the statement gate of exec.FullCompiler.statement
 
 
 def _pred(fn):
